@@ -11,6 +11,7 @@ import (
 
 	req "github.com/imroc/req/v3"
 	"github.com/imroc/req/v3/verifharness/hk"
+	"github.com/klauspost/compress/zstd"
 )
 
 var apiModes = []string{"bytes", "output", "tobytes"}
@@ -381,7 +382,11 @@ func (g *gen) runAttempts() {
 	warm := g.newScript(payload{"warm", []byte("warm-up\n")}, codings[4], true, bin)
 	p := payload{"text900", textish(rng, 900)}
 	n := 0
-	for _, c := range []coding{codings[0], codings[0], codings[10], codings[2], codings[3], codings[4], codings[6]} {
+	acods := []coding{codings[0], codings[10], codings[3], codings[4]}
+	if !r.Quick() {
+		acods = append(acods, codings[0], codings[2], codings[6])
+	}
+	for _, c := range acods {
 		for _, cf := range []cfg{{}, {Auto: true}, {Disable: true}, {Disable: true, Auto: true}} {
 			for _, k := range []reqKind{reqKinds[0], reqKinds[0], reqKinds[1], reqKinds[4]} {
 				// (1) dropped attempt on a reused HTTP/1 connection
@@ -416,9 +421,9 @@ func (g *gen) runLive() {
 			sets = append(sets, cfg{Disable: d, Auto: a})
 		}
 	}
-	cods := []coding{codings[0], codings[1], codings[3], codings[4], codings[10]}
+	cods := []coding{codings[0], codings[1], codings[4]}
 	if !r.Quick() {
-		cods = append(cods, codings[2], codings[6], codings[15], codings[20])
+		cods = append(cods, codings[3], codings[10], codings[2], codings[6], codings[15], codings[20])
 	}
 	warm := g.newScript(payload{"warm", []byte("warm-up\n")}, codings[4], true, bin)
 	n := 0
@@ -513,5 +518,101 @@ func (g *gen) runTrailers() {
 			}
 			g.drop(s)
 		}
+	}
+}
+
+// O. CLONES: an original client makes an exchange (its connections are open), Client.Clone() is called,
+// the clone gets its own decompression settings and makes exchanges to the same origin, then the original
+// again, then a clone of the clone - every client is judged by its OWN settings of the moment.  All ordered
+// pairs (original's settings A, clone's settings B) x codings, on the three stacks.
+func (g *gen) runClones() {
+	r, rng := g.r, g.rng.Fork()
+	const bin = "application/octet-stream"
+	p := payload{"text900", textish(rng, 900)}
+	var sets []cfg
+	for _, d := range []bool{false, true} {
+		for _, a := range []bool{false, true} {
+			sets = append(sets, cfg{Disable: d, Auto: a})
+		}
+	}
+	cods := []coding{codings[1], codings[0], codings[3]}
+	if !r.Quick() {
+		cods = append(cods, codings[2], codings[4], codings[10])
+	}
+	warm := g.newScript(payload{"warm", []byte("warm-up\n")}, codings[4], true, bin)
+	n := 0
+	step := func(key string, cf cfg, s *script) {
+		st := strings.SplitN(key, "/", 2)[0]
+		x := exchange{Stack: st, Cfg: cf, Req: reqKinds[0], S: s, Pat: readPats[n%len(readPats)], Live: true, LiveKey: key}
+		g.w.liveClient(key, cf)
+		x.Opened, x.Nth = g.w.live[key].opened, g.w.live[key].n
+		g.w.live[key].n++
+		g.one(x)
+		n++
+	}
+	for _, st := range stacks {
+		for ai, a := range sets {
+			orig := fmt.Sprintf("%s/orig%d", st, ai)
+			step(orig, a, warm) // the original's connection is open now
+			for bi, b := range sets {
+				ck := fmt.Sprintf("%s/clone%d.%d", st, ai, bi)
+				g.w.cloneLive(orig, ck, b)
+				for _, c := range cods {
+					s := g.newScript(p, c, n%2 == 0, bin)
+					step(ck, b, s)   // the clone, under its own settings
+					step(orig, a, s) // the original is what it was
+					g.drop(s)
+				}
+				if bi == (ai+1)%len(sets) { // a clone of the clone, back under the original's settings
+					cck := ck + ".c"
+					g.w.cloneLive(ck, cck, a)
+					s := g.newScript(p, cods[0], true, bin)
+					step(cck, a, s)
+					g.drop(s)
+				}
+				r.Count(fmt.Sprintf("clone.settings=%s->%s", a.name(), b.name()))
+			}
+		}
+	}
+	g.drop(warm)
+}
+
+// P. zstd frames by window size: a stream written piecemeal (the frame header carries a Window_Descriptor)
+// with a 1 MB, 8 MB and 16 MB window.  RFC 9659 caps the window of the "zstd" content coding at 8 MB: up to
+// there the payload must come out; above, the payload or a read error (never other bytes) - the code has
+// no cap, the model follows the code.
+func (g *gen) runZstdWindows() {
+	r, rng := g.r, g.rng.Fork()
+	p := textish(rng, 300000)
+	n := 0
+	for _, win := range []int{1 << 20, 8 << 20, 16 << 20} {
+		var out bytes.Buffer
+		zw, err := zstd.NewWriter(&out, zstd.WithWindowSize(win), zstd.WithEncoderConcurrency(1), zstd.WithEncoderCRC(true))
+		if err != nil {
+			r.Notes = append(r.Notes, "zstd writer: "+err.Error())
+			return
+		}
+		for off := 0; off < len(p); off += 64 << 10 {
+			end := off + 64<<10
+			if end > len(p) {
+				end = len(p)
+			}
+			zw.Write(p[off:end])
+		}
+		zw.Close()
+		g.nextID++
+		s := &script{ID: g.nextID, Payload: p, PayName: "text300k", CE: []string{"zstd"}, CEClass: fmt.Sprintf("zstd-window%dM", win>>20),
+			Served: out.Bytes(), SetCL: n%2 == 0, CT: "application/octet-stream", Lenient: win > 8<<20}
+		g.w.o.mu.Lock()
+		g.w.o.scripts[s.ID] = s
+		g.w.o.mu.Unlock()
+		for _, st := range stacks {
+			for _, cf := range []cfg{{Auto: true}, {Disable: true, Auto: true}} {
+				g.one(exchange{Stack: st, Cfg: cf, Req: reqKinds[0], S: s, Pat: readPats[n%len(readPats)]})
+				r.Count(fmt.Sprintf("zstd.window=%dM", win>>20))
+				n++
+			}
+		}
+		g.drop(s)
 	}
 }
